@@ -651,6 +651,83 @@ func sameEnd(a, b *TSeg) bool {
 	return a.Class != "done" || a.Out.String() == b.Out.String()
 }
 
+// SigZeroChunkResumedWithoutStreams: signature of the known finding F-C05i (known_findings.json, corpus/C05/18).
+const SigZeroChunkResumedWithoutStreams = "typed-zero-chunk-stream-resumed-without-streams"
+
+// zeroChunkResumedWithoutStreams recognises exactly the class of F-C05i. The streaming producer a (output type any)
+// emits a stream WITHOUT chunks and its successor b is a consumer without streams, so every uninterrupted run fails
+// with 'stream reader is empty' (Invoke when a's stream is concatenated, Stream / Collect / Transform - all three run
+// the graph in stream mode - when b's input is). In the driven run a executes in a stream-mode call that ends in an
+// interrupt: the checkpoint conversion (defaultStreamConvertPair.concatStream) writes the stream without chunks as a
+// plain nil. A resume in stream mode rebuilds the stream without chunks from it (b fails as in the uninterrupted run);
+// a resume through Invoke does not convert at all (restore with isStream false only turns the nilChunk marker back),
+// takes the plain nil for the nil VALUE of b's interface input type, and the run completes with b<nil> (in that call,
+// or - the value written back as the nilChunk marker by another interrupt - in a later call of any paradigm).
+// (For a concrete input type the same resume fails too - 'unexpected input type ... got: <nil>' - so the class is the
+// interface-typed one only; all nodes of the family are declared over any.)
+func zeroChunkResumedWithoutStreams(t *TypedSpec, refs []*TSeg, obs *TDrive) bool {
+	if t.Val != tvNoChunk || t.Prod != 1 || len(obs.Segs) < 2 {
+		return false
+	}
+	for _, r := range refs {
+		if r.Class != "fail" || !strings.Contains(r.Err, "stream reader is empty") {
+			return false
+		}
+		for _, e := range r.Execs {
+			if e.Node == "b" {
+				return false
+			}
+		}
+	}
+	last := obs.Segs[len(obs.Segs)-1]
+	if last.Class != "done" {
+		return false
+	}
+	bOnNil := false
+	for _, e := range last.Execs {
+		if e.Node == "a" {
+			return false
+		}
+		if e.Node == "b" {
+			if e.In != "nil" {
+				return false
+			}
+			bOnNil = true
+		}
+	}
+	if !bOnNil {
+		return false
+	}
+	// the call in which a ran: in stream mode, ended in an interrupt (its checkpoint holds a's stream), and b has not
+	// run in any call but the last
+	ranA := -1
+	for k, s := range obs.Segs[:len(obs.Segs)-1] {
+		if s.Class != "interrupt" {
+			return false
+		}
+		for _, e := range s.Execs {
+			switch e.Node {
+			case "a":
+				ranA = k
+			case "b":
+				return false
+			}
+		}
+	}
+	if ranA < 0 || obs.Segs[ranA].Par == pInvoke {
+		return false
+	}
+	// some later call is an Invoke: it reads the plain nil as the nil value (and, when it is interrupted again, writes it
+	// back as the nilChunk marker, from which a later stream-mode call rebuilds a stream of ONE nil chunk); with stream-mode
+	// calls only b receives the stream without chunks again and fails like the uninterrupted run
+	for _, s := range obs.Segs[ranA+1:] {
+		if s.Par == pInvoke {
+			return true
+		}
+	}
+	return false
+}
+
 func tsummary(s *TSeg) string {
 	switch s.Class {
 	case "done":
@@ -704,6 +781,10 @@ func oracleDrive(t *TypedSpec, refs []*TSeg, obs *TDrive) (*Failure, *TSeg) {
 	}
 	last := obs.Segs[len(obs.Segs)-1]
 	if !sameEnd(ref, last) {
+		if zeroChunkResumedWithoutStreams(t, refs, obs) {
+			return &Failure{What: fmt.Sprintf("typed family (known finding F-C05i): a's stream without chunks was written to the checkpoint by a stream-mode call as a plain nil, a resume through Invoke took it for the nil value, b ran on nil and the run (call %d) ended with %s; every uninterrupted run ends with %s",
+				len(obs.Segs), tsummary(last), tsummary(ref)), Sig: SigZeroChunkResumedWithoutStreams}, ref
+		}
 		return &Failure{What: fmt.Sprintf("typed family: the uninterrupted run ends with %s, the interrupted+resumed run (call %d) with %s", tsummary(ref), len(obs.Segs), tsummary(last)), Sig: "typed-end-differs"}, ref
 	}
 	if ref.Class == "done" {
